@@ -561,6 +561,12 @@ func backwardSlice(v ssa.Value, limit int) map[ssa.Value]bool {
 			return
 		}
 		seen[x] = true
+		if fv, ok := x.(*ssa.FreeVar); ok {
+			if b := freeVarBinding(fv); b != nil {
+				walk(b)
+			}
+			return
+		}
 		if al, ok := x.(*ssa.Alloc); ok {
 			var storesTo func(addr ssa.Value)
 			storesTo = func(addr ssa.Value) {
